@@ -298,7 +298,7 @@ def _build_catalogue_body():
     from pyubx2.ubxtypes_configdb import UBX_CONFIG_DATABASE  # pylint: disable=import-outside-toplevel
 
     rng = core.stream(13, "catalogue")
-    ops, fam = [], {"parse": [], "aborted": [], "new": [], "cfg": [], "tp5": [], "mutate": [], "inspect": [], "variant": [], "read": []}
+    ops, fam = [], {"parse": [], "aborted": [], "new": [], "cfg": [], "tp5": [], "mutate": [], "inspect": [], "variant": [], "read": [], "eqv": []}
     pool_src = []
 
     def add(op, *families):
@@ -365,6 +365,40 @@ def _build_catalogue_body():
         fr = W.ubx_frame(e["cls"], e["mid"], device.payload_bytes(rng, n, "random"))
         add({"o": "parse", "hex": fr.hex(), "mm": (e["modes"] or [0])[0], "val": 1, "pbf": 1}, "parse", "aborted")
         add({"o": "parse", "hex": fr[:-1].hex() + "00", "mm": 0, "val": 1, "pbf": 1}, "parse", "aborted")
+    # values that compare equal but are not the same value / type (0.0, -0.0, 0, False; 1, 1.0, True):
+    # a result may not depend on which of them was converted first
+    eqv = []
+    for mode, tab_name in ((1, "SET"), (0, "GET")):
+        for e in cat:
+            if mode not in e["modes"] or e["typ"] is not None:
+                continue
+            try:
+                msg = UBXReader.parse(W.ubx_frame(e["cls"], e["mid"], bytes(e["lens"][1] if len(e["lens"]) > 1 else e["lens"][0])), msgmode=mode)
+            except Exception:  # pylint: disable=broad-except
+                continue
+            kw = _public_kwargs(msg)
+            fl = [k for k, v in kw.items() if isinstance(v, dict) and "f" in v]
+            it = [k for k, v in kw.items() if isinstance(v, int) and not isinstance(v, bool)]
+            if not kw or len(kw) > 40 or not (fl or it):
+                continue
+            base = {"o": "new", "cls": enc(msg.msg_cls), "id": enc(msg.msg_id), "mode": mode, "kw": kw}
+            group = [base]
+            if fl:
+                group.append(dict(base, kw=dict(kw, **{fl[0]: {"f": "-0.0"}})))
+                group.append(dict(base, kw=dict(kw, **{fl[0]: 0})))
+                group.append(dict(base, kw=dict(kw, **{fl[0]: {"f": "1.0"}})))
+                group.append(dict(base, kw=dict(kw, **{fl[0]: 1})))
+            if it:
+                group.append(dict(base, kw=dict(kw, **{it[0]: 1})))
+                group.append(dict(base, kw=dict(kw, **{it[0]: {"f": "1.0"}})))
+                group.append(dict(base, kw=dict(kw, **{it[0]: True})))
+                group.append(dict(base, kw=dict(kw, **{it[0]: False})))
+                group.append(dict(base, kw=dict(kw, **{it[0]: {"f": "0.0"}})))
+            for g in group:
+                add(g, "new", "eqv")
+            eqv.append(len(group))
+            if len(eqv) >= 24:
+                break
     # stream reads: mixed-protocol wires through UBXReader (SETPOLL included: same identity in both modes)
     for i in range(60):
         parts = []
@@ -428,7 +462,7 @@ def _build_catalogue_body():
     pool_src.append({"o": "cfgpoll", "layer": 0, "pos": 0, "keys": [keys[0][0]]})
     pool_src.append({"o": "new", "cls": "CFG", "id": "CFG-MSG", "mode": 1, "kw": {"msgClass": 240, "msgID": 4, "rateUART1": 1}})
     names_private = ("_payload", "_immutable", "_checksum", "_ubxClass", "_ubxID", "_length", "_mode", "_parsebf")
-    names_new = ("foo", "newAttr", "payload2", "__class__x")
+    names_new = ("foo", "newAttr", "payload2", "__class__x", "__doc__", "__brand_new__", "__dict__", "__wrapped__", "__module__", "_", "__x")
     names_prop = ("identity", "payload", "length", "msg_cls", "msg_id", "msgmode")
     values = [0, 1, {"b": "00"}, "x", None, [1, 2], {"f": "1.5"}]
     for j, src in enumerate(pool_src):
@@ -739,6 +773,10 @@ def _pick_ops(rng, cat, n, flavour):
             i = rng.choice(fam["variant"] + fam["tp5"])
         elif flavour == "mutate" and roll < 0.5:
             i = rng.choice(fam["mutate"])
+        elif flavour == "eqv" and roll < 0.7:
+            # neighbouring entries of the equal-but-different-values family belong to one message
+            j = rng.randrange(len(fam["eqv"]))
+            i = fam["eqv"][min(max(j + rng.randrange(-4, 5), 0), len(fam["eqv"]) - 1)]
         elif roll < 0.1:
             i = rng.choice(fam["cfg"])
         elif roll < 0.2:
@@ -757,21 +795,30 @@ def generate(seed: int, tier: str = "quick") -> dict:
     cat = build_catalogue()
     r_cfg = core.stream(seed, "config")
     r_ops = core.stream(seed, "threads")
-    flavour = r_cfg.choice(("uniform", "family", "aborted", "variant", "mutate"))
+    flavour = r_cfg.choice(("uniform", "family", "aborted", "variant", "mutate", "eqv"))
     if r_cfg.random() < 0.5:
         n = r_cfg.choice((5, 10, 20, 40, 80, 200))
         ops = _pick_ops(r_ops, cat, n, flavour)
         probes = [cat["ops"][i] for i in (cat["fam"]["tp5"][:1] + cat["fam"]["variant"][:: max(1, len(cat["fam"]["variant"]) // 12)][:12] + cat["fam"]["cfg"][:3])]
         return {"seed": seed, "mode": "history", "ops": ops + probes, "pool": cat["pool"], "flavour": flavour}
     nthreads = r_cfg.choice((2, 2, 3, 4))
-    if r_cfg.random() < 0.35:
+    style = r_cfg.random()
+    if style < 0.3:
         # all threads hammer the same few operations (shared definitions, shared variant selectors)
         base = _pick_ops(r_ops, cat, r_cfg.choice((2, 3, 5)), flavour)
         op_lists = [list(base) for _ in range(nthreads)]
+    elif style < 0.55:
+        # each thread repeats its own small set of operations (the same value converted again and
+        # again, as in consecutive messages of one navigation epoch), sets differ between threads
+        op_lists = []
+        for _ in range(nthreads):
+            own = _pick_ops(r_ops, cat, r_cfg.choice((1, 2, 3)), flavour)
+            seq = [r_ops.choice(own) for _ in range(r_cfg.choice((4, 6, 10)))]
+            op_lists.append(seq)
     else:
         op_lists = [_pick_ops(r_ops, cat, r_cfg.choice((2, 4, 8, 16)), flavour) for _ in range(nthreads)]
     kind = r_cfg.choice(("random", "random", "pct"))
-    gran = "instruction" if (tier == "thorough" and r_cfg.random() < 0.25) else "line"
+    gran = "instruction" if r_cfg.random() < (0.25 if tier == "thorough" else 0.08) else "line"
     if kind == "random":
         policy = {"kind": "random", "p": r_cfg.choice((0.2, 0.05, 0.02, 0.005, 0.002))}
         if gran == "instruction":
